@@ -965,11 +965,25 @@ def alias_step(rng, c, tight=False, mode=None):
             tgt = rng.sample(tgt, rng.randint(1, len(tgt) - 1))
         for o in tgt:
             assign[o["i"]] = members[-1]
-        if mode in ("cmp", "fn") and rng.random() < 0.75:
+        if mode in ("cmp", "fn") and rng.random() < 0.9:
             lim = min([o["where"] for o in tgt if o["where"] >= 0] or [n])
-            atoms = [o for o in mine if o["kind"] == "atom" and o["where"] < lim]
+
+            def binds(o):       # a positive atom, or the variable side of `V = fn:..(..)` / `V = constant`
+                if o["kind"] == "atom":
+                    return True
+                if o["kind"] != "eq":
+                    return False
+                e = c["body"][o["where"]]
+                other = e[2] if e[1] == ["var", v] else e[1]
+                return other[0] in ("app", "c")
+            atoms = [o for o in mine if o["where"] < lim and binds(o)]
             if atoms:
                 assign[rng.choice(atoms)["i"]] = members[-1]
+                if not [o for o in mine if binds(o) and o["i"] not in assign]:
+                    # V has lost its only binder atom: everything that needs a bound operand follows
+                    for o in mine:
+                        if o["i"] not in assign and (o["kind"] == "cmp" or o["kind"].endswith("-fn")):
+                            assign[o["i"]] = members[-1]
         if rng.random() < 0.2:
             for o in mine:
                 if o["i"] not in assign and rng.random() < 0.4:
